@@ -301,6 +301,8 @@ theorem drainLoop_tinv (w : Nat) : ∀ (q : List Entry) (c : Core) (fl : List En
     intro c fl hw h
     unfold drainLoop
     split
+    · exact h
+    split
     · rename_i hexp
       exact ih (c.emit (.qdrop e.sid c.now .expired)) fl hw (h.drop c.now .expired hexp)
     · split
